@@ -127,7 +127,8 @@ def build_corr(cs):
     def entry(t, i, j):
         base = (((t - pad[0]) * N + i) * N + j) * nparts
         parts = [make_obs(cs['lay'], covpart, cs['means'][base + p], cs['sigma'], cs['seed'], base + p) for p in range(nparts)]
-        return pe.CObs(parts[0], parts[1]) if cs['cplx'] else parts[0]
+        x = pe.CObs(parts[0], parts[1]) if cs['cplx'] else parts[0]
+        return x if cs.get('scale') is None else float(cs['scale']) * x       # the whole correlator in other units
 
     for t in range(pad[0], T - pad[1]):
         if t in none:
@@ -847,6 +848,8 @@ def index_case(draw, tier):
     if kind in ('thin', 'roll', 'Hankel', 'reverse'):
         kw['tmin'] = 5              # a shift / stride / window needs room to be told from its neighbours
     a = draw(corr_spec(lay, [], N=N, cplx=cplx, sign='mixed', tier=tier, **kw))
+    if kind in ('matrix_symmetric', 'trace', 'item', 'reverse', 'symmetric') and draw(st.integers(0, 3)) == 0:
+        a['scale'] = 10.0 ** draw(st.sampled_from([-13, -13, -11, 9]))       # late timeslices of a decaying correlator are this small
     spec['a'] = a
     T, N = a['T'], a['N']
     ar = spec['args']
